@@ -167,6 +167,27 @@ def run_c09(tier):
     lacc = Acc()
     nlazy = lazy_global_schedules(lacc, tier)
     run.merge(lacc.result())
+    # a lookup after the schema module was reloaded returns the module's CURRENT class (sequence: look up, reload the
+    # module with importlib.reload, look up again).  Last, because reloading replaces class objects.
+    racc2 = Acc()
+    for api, ver, typ in RACE_ENTRIES:
+        modname = f"kio.schema.{api}.v{ver}.{typ}"
+        racc2.add("evaluations")
+        try:
+            first = index.load_entity_schema(api, ver, ET[typ])
+            mod = importlib.reload(sys.modules[modname])
+            second = index.load_entity_schema(api, ver, ET[typ])
+            m2 = index.load_entity_module(api, ver, ET[typ])
+            ok = second is getattr(mod, first.__name__) and m2 is mod
+            obs = f"{second!r} (id {id(second)}), current {getattr(mod, first.__name__)!r} (id {id(getattr(mod, first.__name__))})"
+        except Exception as e:  # noqa: BLE001
+            ok, obs = False, repr(e)
+        if not ok:
+            racc2.report(violation("C09", "reload", "C09/reload/lookup-returns-a-stale-object-after-module-reload", modname, {"module": modname},
+                                   "the module's current class / the current module object", obs[:300], (api, ver)))
+        else:
+            racc2.outcome("lookup after reload returns the current class")
+    run.merge(racc2.result())
     c = run.cov
     c["first_lookup_schedules"] = nlazy
     c["cold_import_schedules"] = nrace
@@ -265,8 +286,13 @@ def cold_import_races(acc, tier):
                     tb = threading.Thread(target=lambda: res.__setitem__("B", _call(fn)), daemon=True)
                     ta.start()
                     if stage != "none":
-                        if not reached.wait(30):
-                            raise HarnessError(f"import of {modname} never reached stage {stage}")
+                        # wait until A is paused inside the import - or has finished without importing anything
+                        # (an implementation may legitimately answer from what it resolved earlier)
+                        while not reached.wait(0.05):
+                            if not ta.is_alive():
+                                break
+                        else:
+                            pass
                     tb.start()
                     tb.join(0.3 if stage != "none" else 30)  # B may legitimately block on the import lock
                     resume.set()
@@ -278,11 +304,12 @@ def cold_import_races(acc, tier):
                     if finder in sys.meta_path:
                         sys.meta_path.remove(finder)
                 case = {"module": modname, "function": fname, "thread_A_paused_at": stage}
-                want_mod = sys.modules.get(modname)
+                want_mods = [m for m in (sys.modules.get(modname), saved.get(modname)) if m is not None]
                 for t in ("A", "B"):
                     st, v = res[t]
-                    ok = st == "ok" and ((fname == "load_entity_module" and v is want_mod and _complete(v)) or
-                                         (fname != "load_entity_module" and isinstance(v, type) and v.__module__ == modname))
+                    ok = st == "ok" and ((fname == "load_entity_module" and any(v is m for m in want_mods) and _complete(v)) or
+                                         (fname != "load_entity_module" and isinstance(v, type) and v.__module__ == modname
+                                          and any(getattr(m, v.__name__, None) is v for m in want_mods)))
                     if not ok:
                         acc.report(violation("C09", "cold-import", f"C09/cold-import/{fname}/{'raised-' + exc_name(v) if st == 'exc' else 'wrong-or-partial-result'}",
                                              modname, dict(case, thread=t), "both threads get the fully imported module / its class",
